@@ -343,6 +343,12 @@ theorem C05_alias :
   number token with a fraction or an exponent, `fol (jf r) = r`, and `r ≠ ""`.
   `js_NumsOK jf fol v`: every integer inside `v` fits int64 and every float text meets
   `js_FloatOK`; `js_Repr jf fol v := v.WF ∧ js_NumsOK jf fol v`.
+  `js_DistinctKeys v = true`: no map inside `v` has two members with the same key.  The reader
+  stores the members of an object into a Go map, so of two members with the same key only the
+  later one survives (`C05_json_duplicate_key_last_wins` at the end of this file); the text of a
+  value therefore reads back as that value only under this hypothesis.  A well-formed value meets
+  it (`C05_json_wf_distinct_keys`: sorted keys are distinct), so it only shows in the parser-level
+  statements, which do not assume `v.WF`.
   (Definitions and helper lemmas: BklProofs/Lemmas/Json.lean.) -/
 
 /-- **String escaping** — the table of encoding/json's `appendString` (escapeHTML off), clause by
@@ -398,18 +404,30 @@ example : jsonParseStr ['a', '\n', '"'] = none ∧ jsonParseStr ['\\', 'x', '"']
 /-- **The parser on the writer's output**: the text of `v`, followed by anything that does not go
     on like a number, parses (with any fuel ≥ the text's length) to the raw form of `v` — the
     literal text of every number kept — and leaves exactly what followed; `normalize` then turns
-    the raw form of a well-formed `v` into `v`. -/
+    the raw form of a well-formed `v` into `v`.  The keys of every map inside `v` must be pairwise
+    distinct (`hd`; implied by `v.WF`): the reader keeps only the last of two members with the
+    same key. -/
 theorem C05_json_parse_encode (jf fol : String → String) (v : Val) (hn : js_NumsOK jf fol v)
+    (hd : js_DistinctKeys v = true)
     (fuel : Nat) (hf : (jsonEncodeChars jf v).length ≤ fuel) (rest : List Char)
     (hs : ∀ c t, rest = c :: t → js_numChar c = false) :
     jsonParseValue fol fuel (jsonEncodeChars jf v ++ rest) = .ok (js_rawOf jf fol v, rest) ∧
     (v.WF → normalize (js_rawOf jf fol v) = .ok v) :=
-  ⟨js_parse_enc jf fol v fuel rest hn hf hs, fun hw => js_normalize_raw jf fol v hw hn⟩
+  ⟨js_parse_enc jf fol v fuel rest hn hd hf hs, fun hw => js_normalize_raw jf fol v hw hn⟩
 
+/-- non-vacuity: the test value meets both hypotheses -/
+example : js_NumsOK js_demoJf js_demoFol js_demoVal ∧ js_DistinctKeys js_demoVal = true :=
+  ⟨js_demoVal_repr.2, by decide⟩
 example : jsonParseValue js_demoFol 200 (jsonEncodeChars js_demoJf js_demoVal ++ [',', '1'])
     = .ok (js_rawOf js_demoJf js_demoFol js_demoVal, [',', '1']) :=
-  (C05_json_parse_encode js_demoJf js_demoFol js_demoVal js_demoVal_repr.2 200 (by decide) _
-    (by intro c t e; cases e; decide)).1
+  (C05_json_parse_encode js_demoJf js_demoFol js_demoVal js_demoVal_repr.2 (by decide) 200
+    (by decide) _ (by intro c t e; cases e; decide)).1
+/-- the hypothesis `hd` is needed: the text of a (not well-formed) map with the key `a` twice reads
+    back with one member only, the later one -/
+example : jsonParseValue js_demoFol 20
+      (jsonEncodeChars js_demoJf (.map [("a", .int 1), ("a", .int 2)]))
+    = .ok (.map [("a", .jnum "2" "2")], []) ∧
+    js_DistinctKeys (.map [("a", .int 1), ("a", .int 2)]) = false := ⟨rfl, by decide⟩
 
 /-- **C05_json_encode_decode**: for every well-formed value whose integers fit int64 and whose
     float texts meet the float hypothesis — ALL strings (every code point), nested lists, maps —
@@ -545,13 +563,14 @@ example : jsonEncodeStream js_demoJf [.map [("a", .int 1)], .null, .list []]
     = "{\"a\":1}\nnull\n[]\n" := by decide
 
 /-- decoder, beyond what the writer produces: whitespace between tokens, a document stream
-    separated by whitespace only, `\\/`; the parser keeps duplicate keys in document order … -/
+    separated by whitespace only, `\\/`; of two members with the same key the parser keeps the LATER
+    one only (`Decoder.Decode` stores into a Go map) … -/
 example : jsonDecodeDocs js_demoFol 40
     ['{', '"', 'a', '"', ':', ' ', '[', '1', ',', ' ', '2', '.', '0', ']', ' ', ',', ' ', '"', 'a',
       '"', ' ', ':', '{', '"', 'b', '"', ':', '"', '\\', '/', '"', '}', '}', '\n', ' ', '7', ' ']
-    = .ok [.map [("a", .list [.jnum "1" "1", .jnum "2.0" "2"]), ("a", .map [("b", .str "/")])],
-        .jnum "7" "7"] := rfl
-/-- … and `normalize` lets the later one win (Go map assignment); an int64 literal becomes an int -/
+    = .ok [.map [("a", .map [("b", .str "/")])], .jnum "7" "7"] := rfl
+/-- … `normalize` on its own also lets the later one win (`fofList`); an int64 literal becomes an
+    int -/
 example : normalizeList
       [Raw.map [("a", .list [.jnum "1" "1", .jnum "2.0" "2"]), ("a", .map [("b", .str "/")])],
         .jnum "7" "7"]
@@ -632,33 +651,36 @@ example : jsonNewline 2 = ['\n', ' ', ' ', ' ', ' '] := by decide
     fuel ≥ the text's length) to the raw form of `v` — the same raw form the compact text gives —
     and leaves exactly what followed; `normalize` then turns it into `v`. -/
 theorem C05_json_pretty_parse (jf fol : String → String) (v : Val) (hn : js_NumsOK jf fol v)
-    (lvl fuel : Nat) (hf : (jsonPrettyChars jf lvl v).length ≤ fuel) (rest : List Char)
+    (hd : js_DistinctKeys v = true) (lvl fuel : Nat) (hf : (jsonPrettyChars jf lvl v).length ≤ fuel) (rest : List Char)
     (hs : ∀ c t, rest = c :: t → js_numChar c = false) :
     jsonParseValue fol fuel (jsonPrettyChars jf lvl v ++ rest) = .ok (js_rawOf jf fol v, rest) ∧
     (v.WF → normalize (js_rawOf jf fol v) = .ok v) :=
-  ⟨jsp_parse_pretty' jf fol v lvl fuel rest hn hf hs, fun hw => js_normalize_raw jf fol v hw hn⟩
+  ⟨jsp_parse_pretty' jf fol v lvl fuel rest hn hd hf hs,
+    fun hw => js_normalize_raw jf fol v hw hn⟩
 
 /-- … and the fuel the compact text needs is already enough (the indented text is never shorter,
     and the extra characters are skipped without spending fuel). -/
 theorem C05_json_pretty_parse_compact_fuel (jf fol : String → String) (v : Val)
-    (hn : js_NumsOK jf fol v) (lvl fuel : Nat) (hf : (jsonEncodeChars jf v).length ≤ fuel)
+    (hn : js_NumsOK jf fol v) (hd : js_DistinctKeys v = true) (lvl fuel : Nat)
+    (hf : (jsonEncodeChars jf v).length ≤ fuel)
     (rest : List Char) (hs : ∀ c t, rest = c :: t → js_numChar c = false) :
     jsonParseValue fol fuel (jsonPrettyChars jf lvl v ++ rest) = .ok (js_rawOf jf fol v, rest) ∧
     (jsonEncodeChars jf v).length ≤ (jsonPrettyChars jf lvl v).length :=
-  ⟨jsp_parse_pretty jf fol v lvl fuel rest hn hf hs, jsp_enc_le_pretty jf v lvl⟩
+  ⟨jsp_parse_pretty jf fol v lvl fuel rest hn hd hf hs, jsp_enc_le_pretty jf v lvl⟩
 
 /-- non-vacuity: the test values meet the hypothesis; level 1, something after the text -/
-example : js_NumsOK js_demoJf js_demoFol jsp_demoVal2 := jsp_demoVal2_repr.2
+example : js_NumsOK js_demoJf js_demoFol jsp_demoVal2 ∧ js_DistinctKeys jsp_demoVal2 = true :=
+  ⟨jsp_demoVal2_repr.2, by decide⟩
 example : jsonParseValue js_demoFol 110 (jsonPrettyChars js_demoJf 1 jsp_demoVal2 ++ [',', '1'])
     = .ok (js_rawOf js_demoJf js_demoFol jsp_demoVal2, [',', '1']) :=
-  (C05_json_pretty_parse js_demoJf js_demoFol jsp_demoVal2 jsp_demoVal2_repr.2 1 110 (by decide) _
-    (by intro c t e; cases e; decide)).1
+  (C05_json_pretty_parse js_demoJf js_demoFol jsp_demoVal2 jsp_demoVal2_repr.2 (by decide) 1 110
+    (by decide) _ (by intro c t e; cases e; decide)).1
 example : (jsonEncodeChars js_demoJf jsp_demoVal2).length = 39 ∧
     (jsonPrettyChars js_demoJf 1 jsp_demoVal2).length = 104 := by decide
 example : jsonParseValue js_demoFol 39 (jsonPrettyChars js_demoJf 1 jsp_demoVal2)
     = .ok (js_rawOf js_demoJf js_demoFol jsp_demoVal2, []) := by
   have := (C05_json_pretty_parse_compact_fuel js_demoJf js_demoFol jsp_demoVal2
-    jsp_demoVal2_repr.2 1 39 (by decide) [] (by intro c t e; cases e)).1
+    jsp_demoVal2_repr.2 (by decide) 1 39 (by decide) [] (by intro c t e; cases e)).1
   rwa [List.append_nil] at this
 
 /-- **C05_json_pretty_decode**: for every well-formed value whose integers fit int64 and whose
@@ -709,6 +731,7 @@ theorem C05_json_pretty_same_value_as_compact (jf fol : String → String) :
     (∀ (v : Val) (lvl : Nat), v.WF → js_NumsOK jf fol v →
       jsonLoad fol (String.ofList (jsonPrettyChars jf lvl v)) = jsonLoad fol (jsonEncode jf v)) ∧
     (∀ (v : Val) (lvl fuel : Nat) (rest : List Char), js_NumsOK jf fol v →
+      js_DistinctKeys v = true →
       (jsonEncodeChars jf v).length ≤ fuel → (∀ c t, rest = c :: t → js_numChar c = false) →
       jsonParseValue fol fuel (jsonPrettyChars jf lvl v ++ rest) =
         jsonParseValue fol fuel (jsonEncodeChars jf v ++ rest)) := by
@@ -717,8 +740,9 @@ theorem C05_json_pretty_same_value_as_compact (jf fol : String → String) :
     rw [C05_json_pretty_stream_roundtrip jf fol vs h, C05_json_stream_roundtrip jf fol vs h]
   · intro v lvl hw hn
     rw [jsp_load_pretty jf fol v lvl ⟨hw, hn⟩, js_load_encode jf fol v ⟨hw, hn⟩]
-  · intro v lvl fuel rest hn hf hs
-    rw [jsp_parse_pretty jf fol v lvl fuel rest hn hf hs, js_parse_enc jf fol v fuel rest hn hf hs]
+  · intro v lvl fuel rest hn hd hf hs
+    rw [jsp_parse_pretty jf fol v lvl fuel rest hn hd hf hs,
+      js_parse_enc jf fol v fuel rest hn hd hf hs]
 
 example : jsonLoadStream js_demoFol (jsonPrettyStream js_demoJf [jsp_demoVal, jsp_demoVal2]) =
     jsonLoadStream js_demoFol (jsonEncodeStream js_demoJf [jsp_demoVal, jsp_demoVal2]) :=
@@ -805,5 +829,164 @@ example : jsonPrettyStream js_demoJf [.map [("a", .int 1)], .null, .list [], .ma
 example : jsonDecodeDocs js_demoFol 20
       ['[', '\n', ' ', ' ', '1', ',', '\n', ' ', ' ', '{', '}', '\n', ']', '\n']
     = .ok [.list [.jnum "1" "1", .map []]] := rfl
+
+end Bkl
+
+/-!
+  ## Duplicate keys: the later member wins
+
+  `Decoder.Decode` stores the members of an object into a Go map, so a later member with the same
+  key REPLACES an earlier one, and the earlier value is never looked at again — not even by
+  `normalize`: `{"k": -1e400, "k": {}}` loads, although `-1e400` alone does not (no float64 holds
+  it).  `jsonParseMembers` models this; what it returns has pairwise distinct keys, the last
+  occurrence of each key surviving.  Helper lemmas: BklProofs/Lemmas/Json.lean (`js_parse_distinct`,
+  `js_parseMembers_step`).
+-/
+namespace Bkl
+
+/-- a well-formed value has pairwise distinct keys in every map (strictly sorted keys are
+    distinct) — which is why the round-trip theorems that assume `v.WF` need no further
+    hypothesis; and the Bool predicate on one map says that its key list has no duplicates -/
+theorem C05_json_wf_distinct_keys :
+    (∀ v : Val, v.WF → js_DistinctKeys v = true) ∧
+    (∀ m : Fields, js_keysDistinct m = true ↔ (m.map (·.1)).Nodup) ∧
+    (∀ m : Fields, js_DistinctKeys (.map m) = true ↔
+      (m.map (·.1)).Nodup ∧ ∀ p ∈ m, js_DistinctKeys p.2 = true) := by
+  refine ⟨fun v hw => js_distinct_of_wf hw, js_keysDistinct_iff_nodup, ?_⟩
+  intro m
+  have h : ∀ l : Fields, js_DistinctKeysFields l = true ↔ ∀ p ∈ l, js_DistinctKeys p.2 = true := by
+    intro l
+    induction l with
+    | nil => simp [js_DistinctKeysFields]
+    | cons p l ih =>
+      obtain ⟨k, v⟩ := p
+      simp [js_DistinctKeysFields, ih]
+  rw [js_DistinctKeys, Bool.and_eq_true, js_keysDistinct_iff_nodup, h]
+
+example : js_demoVal.WF ∧ js_DistinctKeys js_demoVal = true :=
+  ⟨js_demoVal_repr.1, C05_json_wf_distinct_keys.1 _ js_demoVal_repr.1⟩
+/-- distinct keys is weaker than well-formed: unsorted keys are fine -/
+example : js_DistinctKeys (.map [("b", .int 1), ("a", .int 2)]) = true ∧
+    ¬ (Val.map [("b", .int 1), ("a", .int 2)]).WF := by decide
+
+/-- **C05_json_duplicate_key_last_wins.**
+    (a) Whatever the input, the members `jsonParseMembers` returns have pairwise distinct keys.
+    (b) One step of the reader, in general: a member `"k": <text of x>` in front of `,` and more
+        members that parse to `kvs` — if `kvs` already has the key `k`, the result is `kvs` alone,
+        WHATEVER `x` is (`x` does not occur in the result, so `normalize` never sees it);
+        otherwise it is `(k, x) :: kvs`.
+    (c) Labelled tests (`js_dupFol`: no float64 for the literal `-1e400`):
+        `{"k":-1e400,"k":{}}` loads to `{k: {}}`, while `{"k":-1e400}` alone is an error;
+        `{"a":1,"b":2,"a":3}` loads to `{a: 3, b: 2}`. -/
+theorem C05_json_duplicate_key_last_wins :
+    (∀ (fol : String → String) (fuel : Nat) (cs : List Char) (kvs : List (String × Raw))
+        (r : List Char),
+      jsonParseMembers fol fuel cs = .ok (kvs, r) → (kvs.map (·.1)).Nodup) ∧
+    (∀ (fol : String → String) (fuel : Nat) (k txt more : List Char) (x : Raw)
+        (kvs : List (String × Raw)) (r : List Char),
+      jsonParseValue fol fuel txt = .ok (x, ',' :: more) →
+      jsonParseMembers fol fuel more = .ok (kvs, r) →
+      ((kvs.any fun e => e.1 == String.ofList k) = true →
+        jsonParseMembers fol (fuel + 1) (jsonQuote k ++ ':' :: txt) = .ok (kvs, r)) ∧
+      ((kvs.any fun e => e.1 == String.ofList k) = false →
+        jsonParseMembers fol (fuel + 1) (jsonQuote k ++ ':' :: txt) =
+          .ok ((String.ofList k, x) :: kvs, r))) ∧
+    (js_dupFol "-1e400" = "" ∧
+      String.ofList js_dupText1 = "{\"k\":-1e400,\"k\":{}}" ∧
+      jsonDecodeStream js_dupFol (String.ofList js_dupText1) = .ok [.map [("k", .map [])]] ∧
+      jsonLoad js_dupFol (String.ofList js_dupText1) = .ok (.map [("k", .map [])]) ∧
+      String.ofList js_dupText2 = "{\"k\":-1e400}" ∧
+      jsonDecodeStream js_dupFol (String.ofList js_dupText2)
+        = .ok [.map [("k", .jnum "-1e400" "")]] ∧
+      jsonLoad js_dupFol (String.ofList js_dupText2) = .error .other ∧
+      String.ofList js_dupText3 = "{\"a\":1,\"b\":2,\"a\":3}" ∧
+      jsonDecodeStream js_dupFol (String.ofList js_dupText3)
+        = .ok [.map [("b", .jnum "2" "2"), ("a", .jnum "3" "3")]] ∧
+      jsonLoad js_dupFol (String.ofList js_dupText3)
+        = .ok (.map [("a", .int 3), ("b", .int 2)])) := by
+  refine ⟨js_parseMembers_nodup, ?_, ?_⟩
+  · intro fol fuel k txt more x kvs r hv hm
+    have := js_parseMembers_step fol fuel k txt more x kvs r hv hm
+    refine ⟨fun h => ?_, fun h => ?_⟩
+    · rw [this, if_pos h]
+    · rw [this, if_neg (by rw [h]; decide)]
+  · have hp : parseInt64 "-1e400" = none :=
+      parseInt64_none_of_bad_char "-1e400" 'e' (by decide) (by decide) (by decide) (by decide)
+        (by decide)
+    have h2 : parseInt64 "2" = some 2 := parseInt64_toString 2 (by decide) (by decide)
+    have h3 : parseInt64 "3" = some 3 := parseInt64_toString 3 (by decide) (by decide)
+    have d1 : jsonDecodeStream js_dupFol (String.ofList js_dupText1)
+        = .ok [.map [("k", .map [])]] := by
+      rw [jsonDecodeStream, String.toList_ofList]; rfl
+    have d2 : jsonDecodeStream js_dupFol (String.ofList js_dupText2)
+        = .ok [.map [("k", .jnum "-1e400" "")]] := by
+      rw [jsonDecodeStream, String.toList_ofList]; rfl
+    have d3 : jsonDecodeStream js_dupFol (String.ofList js_dupText3)
+        = .ok [.map [("b", .jnum "2" "2"), ("a", .jnum "3" "3")]] := by
+      rw [jsonDecodeStream, String.toList_ofList]; rfl
+    refine ⟨by decide, by decide, d1, ?_, by decide, d2, ?_, by decide, d3, ?_⟩
+    · rw [jsonLoad, jsonLoadStream, d1]; rfl
+    · rw [jsonLoad, jsonLoadStream, d2]
+      simp [normalizeList, normalize_map, normalizeFields_cons, normalize_jnum, hp, bind,
+        Except.bind]
+    · rw [jsonLoad, jsonLoadStream, d3]
+      simp [normalizeList, normalize_map, normalizeFields_cons, normalizeFields_nil,
+        normalize_jnum, h2, h3, bind, Except.bind, pure, Except.pure, fofList, fsetAll, fset]
+
+/-- non-vacuity of (a): a successful run with a repeated key in the input -/
+example : jsonParseMembers js_dupFol 9 js_dupText3.tail
+    = .ok ([("b", .jnum "2" "2"), ("a", .jnum "3" "3")], []) := rfl
+/-- non-vacuity of (b), first case: `"k":-1e400` in front of `,"k":{}}` — the number is dropped -/
+example : jsonParseValue js_dupFol 5
+      ['-', '1', 'e', '4', '0', '0', ',', '"', 'k', '"', ':', '{', '}', '}']
+    = .ok (.jnum "-1e400" "", ',' :: ['"', 'k', '"', ':', '{', '}', '}']) ∧
+    jsonParseMembers js_dupFol 5 ['"', 'k', '"', ':', '{', '}', '}'] = .ok ([("k", .map [])], []) ∧
+    ([("k", Raw.map [])].any fun e => e.1 == String.ofList ['k']) = true :=
+  ⟨rfl, rfl, by decide⟩
+example : jsonParseMembers js_dupFol 6 (jsonQuote ['k'] ++ ':' ::
+      ['-', '1', 'e', '4', '0', '0', ',', '"', 'k', '"', ':', '{', '}', '}'])
+    = .ok ([("k", .map [])], []) :=
+  (C05_json_duplicate_key_last_wins.2.1 js_dupFol 5 ['k'] _ ['"', 'k', '"', ':', '{', '}', '}']
+    (.jnum "-1e400" "") [("k", .map [])] [] rfl rfl).1 (by decide)
+/-- … second case: `"j":-1e400` in front of the same — the member is kept (and `normalize` of the
+    result would fail on it) -/
+example : jsonParseMembers js_dupFol 6 (jsonQuote ['j'] ++ ':' ::
+      ['-', '1', 'e', '4', '0', '0', ',', '"', 'k', '"', ':', '{', '}', '}'])
+    = .ok ([("j", .jnum "-1e400" ""), ("k", .map [])], []) :=
+  (C05_json_duplicate_key_last_wins.2.1 js_dupFol 5 ['j'] _ ['"', 'k', '"', ':', '{', '}', '}']
+    (.jnum "-1e400" "") [("k", .map [])] [] rfl rfl).2 (by decide)
+
+/-- **C05_json_reader_output_distinct**: in every `Raw` the reader returns — one value, the
+    documents of a stream, on characters or on a `String` — the keys of every map are pairwise
+    distinct, at every depth (`js_RawDistinct`). -/
+theorem C05_json_reader_output_distinct (fol : String → String) :
+    (∀ (fuel : Nat) (cs : List Char) (x : Raw) (r : List Char),
+      jsonParseValue fol fuel cs = .ok (x, r) → js_RawDistinct x = true) ∧
+    (∀ (fuel : Nat) (cs : List Char) (xs : List Raw),
+      jsonDecodeDocs fol fuel cs = .ok xs → js_RawDistinctList xs = true) ∧
+    (∀ (s : String) (xs : List Raw),
+      jsonDecodeStream fol s = .ok xs → ∀ x ∈ xs, js_RawDistinct x = true) := by
+  refine ⟨fun fuel cs x r h => (js_parse_distinct fol fuel).1 cs x r h,
+    js_decodeDocs_distinct fol, ?_⟩
+  intro s xs h
+  have := js_decodeDocs_distinct fol _ _ _ h
+  clear h
+  induction xs with
+  | nil => intro x hx; cases hx
+  | cons y ys ih =>
+    simp only [js_RawDistinctList, Bool.and_eq_true] at this
+    intro x hx
+    rcases List.mem_cons.1 hx with rfl | hx
+    · exact this.1
+    · exact ih this.2 x hx
+
+/-- non-vacuity: a nested object with repeated keys at two depths -/
+example : jsonParseValue js_dupFol 20
+      ['{', '"', 'a', '"', ':', '{', '"', 'b', '"', ':', '1', ',', '"', 'b', '"', ':', '2', '}',
+        ',', '"', 'a', '"', ':', '[', '{', '"', 'c', '"', ':', '1', ',', '"', 'c', '"', ':', '2',
+        '}', ']', '}']
+    = .ok (.map [("a", .list [.map [("c", .jnum "2" "2")]])], []) := rfl
+example : js_RawDistinct (.map [("a", .list [.map [("c", .jnum "2" "2")]])]) = true ∧
+    js_RawDistinct (.map [("a", .null), ("a", .null)]) = false := by decide
 
 end Bkl
